@@ -16,6 +16,8 @@ Regenerated on every run from the CURRENT working tree:
     attribute names compared in the loop                                      -> `attrNames`, `attrLoop`
   * every finish_X: does it require a cov-mat, does it compare `idim` with the number
     of observations of the cluster                                            -> `finishSpec`
+  * the check every process_X applies to the VALUE of each attribute (tools/gen/c11_gkf_values.py,
+    statement-level parse of the whole handler body)               -> lean/Gama/Gen/GkfValueChecks.lean
 
 Anything the mini-parser does not recognise raises TieBroken (never guessed).
 Python 3 standard library only.
@@ -752,7 +754,20 @@ def generate(repo):
     A(f"def intLoneSignRejected : Bool := {'true' if int_lone else 'false'}")
     A("")
     A("end Gama.Gkf")
-    return "\n".join(L) + "\n"
+    return "\n".join(L) + "\n", _values().generate(repo, both, cpp, allh, finishes, func_body)
+
+
+def _values():
+    """the second table (value checks of every process_*): tools/gen/c11_gkf_values.py"""
+    import importlib.util
+    here = Path(__file__).resolve().parent
+    if str(here) not in sys.path:
+        sys.path.insert(0, str(here))
+    sp = importlib.util.spec_from_file_location("c11_gkf_values", str(here / "c11_gkf_values.py"))
+    m = importlib.util.module_from_spec(sp)
+    sp.loader.exec_module(m)
+    m.TieBroken, m.strip_comments, m.match_brace = TieBroken, strip_comments, match_brace
+    return m
 
 
 def act_lean(a, S, H, K):
@@ -775,14 +790,16 @@ def write_if_changed(path, text):
 
 
 def run(repo, verif):
-    text = generate(repo)
-    return write_if_changed(Path(verif) / "lean" / "Gama" / "Gen" / "GkfAutomaton.lean", text)
+    text, values = generate(repo)
+    a = write_if_changed(Path(verif) / "lean" / "Gama" / "Gen" / "GkfAutomaton.lean", text)
+    b = write_if_changed(Path(verif) / "lean" / "Gama" / "Gen" / "GkfValueChecks.lean", values)
+    return a or b
 
 
 if __name__ == "__main__":
     repo = sys.argv[1] if len(sys.argv) > 1 else "/repo"
     if len(sys.argv) > 2 and sys.argv[2] == "-":
-        sys.stdout.write(generate(repo))
+        sys.stdout.write("".join(generate(repo)))
     else:
         ch = run(repo, Path(__file__).resolve().parents[2])
         print("GkfAutomaton.lean", "rewritten" if ch else "unchanged")
